@@ -735,11 +735,12 @@ All but the first occurrence will be discarded/removed ...""".format(
                 duplicates_to_remove.extend([item] * (c - 1))
 
         # Actually remove all but the first occurrence of duplicate decays
-        for tree in reversed(self._parsed_decays):  # type: ignore[arg-type]
-            val = tree.children[0].children[0].value
+        # (by position: list.remove() would drop the first *equal* tree instead)
+        for pos in reversed(range(len(self._parsed_decays))):  # type: ignore[arg-type]
+            val = self._parsed_decays[pos].children[0].children[0].value  # type: ignore[index]
             if val in duplicates_to_remove:
                 duplicates_to_remove.remove(val)
-                self._parsed_decays.remove(tree)  # type: ignore[union-attr]
+                del self._parsed_decays[pos]  # type: ignore[union-attr]
 
     @property
     def number_of_decays(self) -> int:
